@@ -304,7 +304,9 @@ class Exec:
             res["code"] = 0
         else:
             raise ValueError("unknown op kind %r" % kind)
-        ev = [len(self.events), kind, res.get("code"), sha(res.get("out", "")),
+        # (scratch paths differ from pool to pool: they are no part of what has to repeat)
+        out_norm = (res.get("out", "") or "").replace(self.w.root, "{ROOT}")
+        ev = [len(self.events), kind, res.get("code"), sha(out_norm),
               self.w.head(repo) if kind in ("git", "raw") else None]
         if self.full_digests:
             ev.append(state_digest(self.w, repo))
@@ -359,6 +361,10 @@ def state_digest(w, repo):
     except Exception as ex:  # pragma: no cover
         parts.append("notes-error %s" % ex)
     parts.append(json.dumps(working_log_digest(w, repo), sort_keys=True))
+    if os.environ.get("GAISIM_DIGEST_PARTS") == "full":
+        return parts
+    if os.environ.get("GAISIM_DIGEST_PARTS"):
+        return [sha(x) for x in parts]      # refs, index, status, notes, working logs
     return sha("\x00".join(parts))
 
 
